@@ -592,6 +592,8 @@ func runC05(r *rt.Runner) {
 		n++
 		fmt.Fprintf(&sb, "  bytes blob = %d [(buf.validate.field).bytes = {prefix: \"\\x00\\xff\\\"q\", min_len: 1}];\n", n)
 		sb.WriteString("}\n")
+		// commented declarations with nothing inside and no options
+		sb.WriteString("\n// takes no parameters\nmessage NoParameters {}\n\n// nothing to say\n// on two lines\nmessage Silent {\n}\n\n// no methods yet\nservice NothingService {}\n\n// no values but zero\nenum OnlyZero {\n  // the zero\n  ONLY_ZERO_UNSPECIFIED = 0;\n}\n\n// holder\nmessage Outer {\n  // nested and empty\n  message InnerEmpty {}\n\n  // uses it\n  InnerEmpty inner = 1;\n\n  // and the top-level one\n  NoParameters none = 2;\n}\n")
 		src := map[string]string{"synth/v1/deep.proto": sb.String()}
 		ct, err := compileProtoText(src)
 		if err != nil {
